@@ -54,3 +54,16 @@ package merkle_tree
 //@     invariant range: i >= 0 && i <= sz && len(ret) == sz && fresh(ret) && sz >= 1 && sz >= len(v) && sz & (sz - 1) == 0 && (sz == 1 || sz/2 < len(v))
 //@     invariant padding: forall(k, len(v), i, forall(b, 0, 32, ret[k][b] == 0))
 //@     invariant hashed: (i <= len(v) ==> dyncalls() == old(dyncalls()) + i) && (i > len(v) ==> dyncalls() == old(dyncalls()) + len(v))
+
+// GP (E.1) N: a sequence of n >= 2 items is folded with exactly n-1 node hashes (one per inner node of the well-balanced
+// tree), whatever the items are — so no item can be left out of the root; 0 or 1 item costs no hash call
+//@ readonly nodePrefix
+//@ func N
+//@   props C18
+//@   opt purecalls=1
+//@   opt countcalls=1
+//@   opt decreases=len(v)
+//@   requires fn: hashFunc != nil && len(v) < 4294967296 && forall(k, 0, len(v), len(v[k]) < 4294967296) && len(nodePrefix) == 4
+//@   ensures nodes: (len(v) >= 2 ==> dyncalls() == old(dyncalls()) + len(v) - 1) && (len(v) <= 1 ==> dyncalls() == old(dyncalls()))
+//@   ensures single: len(v) == 1 && v[0] != nil ==> result == v[0]
+//@   ensures size: (len(v) != 1 ==> len(result) == 32) && len(result) < 4294967296
